@@ -99,12 +99,24 @@ def handler(case):
         def ev(exprs):
             f = ca.Function("ev", syms, [ca.MX(e) for e in exprs])
             return [ca.DM(r) for r in f.call(pt)]
+
+        def free(expr):
+            """symbols of an expression that are NOT variables (or time) of this model"""
+            out = []
+            for sv in ca.symvar(ca.MX(expr)):
+                if not any(ca.is_equal(sv, m_s, 0) for m_s in syms if m_s.name() == sv.name()):
+                    out.append("%s%s" % (sv.name(), list(sv.shape)))
+            return out
+        ev.free = free
         return ev, None
 
     def enc_attr(v, ev):
         if isinstance(v, ca.MX):
             if ev is None:
                 return {"k": "mx", "shape": list(v.shape), "rows": None}
+            fr = ev.free(v)
+            if fr:
+                return {"k": "mx", "shape": list(v.shape), "rows": None, "free": fr, "repr": str(v)[:80]}
             d = ev([v])[0]
             return {"k": "mx", "shape": list(v.shape),
                     "rows": [[num(d[i, j]) for j in range(d.size2())] for i in range(d.size1())]}
@@ -206,6 +218,21 @@ def handler(case):
     if case.get("residual", True) and not has_tensor:
         res["E_res"] = residuals(me)
         res["E_delays"] = delays(me, eve)
+    # ---- the real variable_metadata_function of the expanded model at the parameter valuation ------
+    if case.get("metadata", True):
+        try:
+            pvec = ca.DM([x for v in me.parameters for x in sym_values(v.symbol)])
+            f = me.variable_metadata_function
+            outs = f.call([pvec]) if f.n_in() == 1 else f.call([])
+            meta = {}
+            for g, o in zip(["states", "alg_states", "inputs", "parameters", "constants"], outs):
+                o = ca.DM(o)
+                meta[g] = [[num(o[i, j]) for j in range(o.size2())] for i in range(o.size1())]
+            res["E_meta"] = {"groups": meta}
+        except Missing as e:
+            res["E_meta"] = {"err": "missing:" + str(e)}
+        except Exception as e:  # noqa - recorded, judged by the parent
+            res["E_meta"] = {"err": "%s: %s" % (type(e).__name__, str(e).strip().splitlines()[-1][:200])}
     # ---- P: layout probe -----------------------------------------------------------------
     if case.get("probe", True):
         mp = gen()
